@@ -69,7 +69,7 @@ class CTS_ECB(Mode):
             C.append(self._cipher.enc(b))
         if p>0:
             clast = C.pop()
-            b = self.iterblocks(M[n*self.len:])[0]
+            b = M[n*self.len:]
             C.append(self._cipher.enc(b+clast[p:]))
             C.append(clast[0:p])
         return b''.join(C)
